@@ -41,6 +41,9 @@ func init() {
 		"math.Float64frombits":                    intrIdentity,
 		"math.Float32bits":                        intrIdentity,
 		"math.Float64bits":                        intrIdentity,
+		"math.Trunc":                              intrFPRound("trunc64"),
+		"math.Floor":                              intrFPRound("floor64"),
+		"math.Ceil":                               intrFPRound("ceil64"),
 		"strings.genSplit":                        intrGenSplit,
 		"strings.ToLower":                         intrToLower,
 		"strings.TrimSpace":                       intrTrimSpace,
@@ -57,6 +60,8 @@ func init() {
 		"internal/bytealg.IndexByteString":        intrIndexByteStr,
 		"internal/bytealg.IndexByte":              intrIndexByteBytes,
 		"(*sync.Once).Do":                         intrOnceDo,
+		"(*sync.Pool).Get":                        intrPoolGet,
+		"(*sync.Pool).Put":                        intrPoolPut,
 		"(*sync.WaitGroup).Add":                   intrWGAdd,
 		"(*sync.WaitGroup).Done":                  intrWGDone,
 		"(*sync.WaitGroup).Wait":                  intrWGWait,
@@ -204,6 +209,13 @@ func sameStorage(a, b *Backing) bool {
 }
 
 func intrIdentity(e *Exec, _ *Frame, _ *ssa.Function, args []Value) Value { return args[0] }
+
+// math.Trunc / Floor / Ceil (assembly on amd64): IEEE roundToIntegral (fp.go)
+func intrFPRound(name string) intrinsicFn {
+	return func(e *Exec, _ *Frame, _ *ssa.Function, args []Value) Value {
+		return e.ctx.FP(name, 64, args[0].(*Term))
+	}
+}
 
 func (e *Exec) opaqueStr(why string) StrV {
 	b := e.newBacking(1, "opaque")
@@ -451,13 +463,29 @@ func intrParseFloat(e *Exec, _ *Frame, fn *ssa.Function, args []Value) Value {
 			ft = e.ctx.floatInfo[cell]
 		}
 	}
+	if ft == nil && bs.IsConst() {
+		// decimal integer text as rendered by AppendInt/AppendUint/Itoa of a value v: ParseFloat is
+		// correctly rounded, so the result is v converted to the size (round to nearest even)
+		if neg, v, ok := e.intTextValue(s); ok {
+			var f *Term
+			if bs.c == 32 {
+				f = e.ctx.FP("f32to64", 64, e.ctx.FP(fmt.Sprintf("fromui%d_32", v.w), 32, v))
+			} else {
+				f = e.ctx.FP(fmt.Sprintf("fromui%d_64", v.w), 64, v)
+			}
+			if neg {
+				f = e.ctx.Bin(OXor, f, e.ctx.Const(64, 1<<63))
+			}
+			return TupleV{f, IfaceV{}}
+		}
+	}
 	if ft == nil || !bs.IsConst() {
 		e.unsupported("ParseFloat on text not produced by AppendFloat")
 	}
 	if ft.prec != -1 {
 		e.unsupported("ParseFloat of non-shortest float text")
 	}
-	if ft.bits.op == OUF && ft.bits.name == "f32to64" && (bs.c == 32 || bs.c == 64) {
+	if ft.bits.op == OFP && ft.bits.name == "f32to64" && (bs.c == 32 || bs.c == 64) {
 		// the value is exactly a float32: shortest text for either size parses back to it
 		return TupleV{ft.bits, IfaceV{}}
 	}
@@ -465,9 +493,35 @@ func intrParseFloat(e *Exec, _ *Frame, fn *ssa.Function, args []Value) Value {
 		return TupleV{ft.bits, IfaceV{}}
 	}
 	if ft.bitSize == 64 && bs.c == 32 {
-		return TupleV{e.ctx.UF("f32to64", 64, e.ctx.UF("f64to32", 32, ft.bits)), IfaceV{}}
+		return TupleV{e.ctx.FP("f32to64", 64, e.ctx.FP("f64to32", 32, ft.bits)), IfaceV{}}
 	}
 	return TupleV{e.ctx.UF("parse64of32text", 64, ft.bits), IfaceV{}}
+}
+
+// intTextValue recognises a string that is exactly the decimal rendering of one value: an
+// optional constant '-' followed by all digit cells of v (no padding).
+func (e *Exec) intTextValue(s StrV) (neg bool, v *Term, ok bool) {
+	if s.b == nil || s.b.opaque != "" || !s.n.IsConst() || !s.off.IsConst() || s.n.c == 0 {
+		return false, nil, false
+	}
+	off, n := int(s.off.c), int(s.n.c)
+	if c0, isT := s.b.cells[off].(*Term); isT && c0.IsConst() && c0.c == '-' && n > 1 {
+		neg = true
+		off++
+		n--
+	}
+	for i := 0; i < n; i++ {
+		cell, isT := s.b.cells[off+i].(*Term)
+		if !isT {
+			return false, nil, false
+		}
+		di, has := e.ctx.digit[cell]
+		if !has || di.n != n || di.k != n-1-i || (v != nil && di.v != v) {
+			return false, nil, false
+		}
+		v = di.v
+	}
+	return neg, v, v != nil
 }
 
 // ---- fmt ----
@@ -963,6 +1017,42 @@ func intrOnceDo(e *Exec, caller *Frame, _ *ssa.Function, args []Value) Value {
 		e.rtPanic("nil", "nil *sync.Once")
 	}
 	e.onceDo(p.cell, args[1], caller)
+	return nil
+}
+
+// sync.Pool: a LIFO free list per Pool variable. Get hands back the value put last (what the
+// per-P private slot of the real pool does for a goroutine that puts and gets in turn), otherwise
+// calls New. The real pool may also drop values (GC) -- then Get is New(), the behaviour of the
+// empty list, which every path passes through first.
+func intrPoolGet(e *Exec, caller *Frame, fn *ssa.Function, args []Value) Value {
+	cell := syncCell(e, args[0], "*sync.Pool")
+	if st := e.ss.pools[cell]; len(st) > 0 {
+		v := st[len(st)-1]
+		e.ss.pools[cell] = st[:len(st)-1]
+		return v
+	}
+	sv, ok := (*cell).(StructV)
+	if !ok {
+		e.unsupported("sync.Pool value %T", *cell)
+	}
+	pt := fn.Signature.Recv().Type().(*types.Pointer).Elem().Underlying().(*types.Struct)
+	for i := 0; i < pt.NumFields(); i++ {
+		if pt.Field(i).Name() == "New" {
+			if _, isNil := sv[i].(FuncNil); isNil || sv[i] == nil {
+				return IfaceV{}
+			}
+			return e.call(caller, sv[i], nil)
+		}
+	}
+	return IfaceV{}
+}
+
+func intrPoolPut(e *Exec, _ *Frame, _ *ssa.Function, args []Value) Value {
+	cell := syncCell(e, args[0], "*sync.Pool")
+	if iv, ok := args[1].(IfaceV); ok && iv.t == nil {
+		return nil // Put(nil) is ignored
+	}
+	e.ss.pools[cell] = append(e.ss.pools[cell], args[1])
 	return nil
 }
 
